@@ -308,7 +308,7 @@ struct runner
       }
       // "the position where THIS OBJECT resides": identity, not equality.  A look-alike standing on its own (a deep copy of
       // a child) is nobody's child, and of two deep-equal siblings each one is found at its own position.
-      if (!n.empty())
+      if (!n.empty() && p.size() <= 1) // (the root and its children: the copies below cost a subtree each)
       {
         T twin(*n.begin());
         if (fcppt::container::tree::child_position(n, twin).has_value())
@@ -388,6 +388,8 @@ struct runner
         for (; it != end && k <= a.size(); ++it, ++k)
         {
           saved.push_back(it);
+          if (a.size() > 10 && k % 3 != 0) // large trees: a copy is walked to the end from every third position
+            continue;
           auto copy = it;
           std::size_t j = k;
           for (; copy != end && j <= a.size(); ++copy, ++j)
